@@ -72,3 +72,32 @@ func TestBasics(t *testing.T) {
 	}
 	fmt.Println("ok")
 }
+
+func TestJoin(t *testing.T) {
+	s := NewStore()
+	s.NoUnique = true
+	s.Create("db1", "a", []string{"id", "v"})
+	s.Create("db1", "b", []string{"id", "w"})
+	for _, q := range []string{"insert into a (id, v) values (1, 10), (2, 20), (3, 30)", "insert into b (id, w) values (1, 100), (1, 101), (3, 300), (4, 400)"} {
+		if _, err := s.Exec(q, "db1"); err != nil {
+			t.Fatal(err)
+		}
+	}
+	cases := map[string]string{
+		"select a.id, b.w from a join b on a.id = b.id order by a.id, b.w":             "1,100;1,101;3,300",
+		"select x.id, y.w from a x, b y where x.id = y.id and y.w > 100 order by y.w":  "1,101;3,300",
+		"select a.id, b.w from a left join b on a.id = b.id order by a.id, b.w":        "1,100;1,101;2,NULL;3,300",
+		"select count(*), sum(b.w) from a join b on a.id = b.id":                       "3,501",
+		"select a.id, count(*) from a join b on a.id = b.id group by a.id order by a.id": "1,2;3,1",
+	}
+	for q, want := range cases {
+		r, err := s.Exec(q, "db1")
+		if err != nil {
+			t.Errorf("%s: %v", q, err)
+			continue
+		}
+		if got := rowsText(r); got != want {
+			t.Errorf("%s: got %s want %s", q, got, want)
+		}
+	}
+}
